@@ -126,7 +126,20 @@ pub fn replay_main(def: &'static PropDef, path: &str) -> i32 {
     };
     let mut ctx = Ctx::new(def.id, cfg);
     ctx.strict = true;
-    let r = (def.replay)(&doc, &mut ctx);
+    // first pass: the case on its own; if it passes and predecessors were recorded, replay
+    // them first (hidden state between calls) and then the case again
+    let mut r = (def.replay)(&doc, &mut ctx);
+    if r.is_ok() {
+        if let Some(hist) = doc.get("history").and_then(|h| h.as_array()) {
+            for h in hist {
+                let _ = (def.replay)(h, &mut ctx);
+            }
+            r = (def.replay)(&doc, &mut ctx);
+            if r.is_err() {
+                println!("note: the failure needs its recorded predecessors (call history) to show");
+            }
+        }
+    }
     match r {
         Ok(()) => {
             println!("PFV-VERDICT PASS");
